@@ -1,3 +1,246 @@
-(* Link/ParserProofs.v — round trip and incrementality of the link parser model. *)
+(* Link/ParserProofs.v — header codecs, frame round trip and incrementality of the parser model. *)
 From Dnp3V Require Import Link.Parser Link.CrcProofs.
 Open Scope N_scope.
+Arguments N.add : simpl never.
+Arguments N.mul : simpl never.
+
+(* ---------- control byte and addresses: decode then encode is the identity ----------------- *)
+
+Lemma control_round_trip_check : forallb (fun b => control_to (control_from b) =? b) (nrange 256) = true.
+Proof. vm_compute. reflexivity. Qed.
+
+Lemma control_round_trip b : b < 256 -> control_to (control_from b) = b.
+Proof. intro H. apply N.eqb_eq. exact (forallb_nrange _ 256 control_round_trip_check b H). Qed.
+
+Lemma control_to_bound_check : forallb (fun b => control_to (control_from b) <? 256) (nrange 256) = true.
+Proof. vm_compute. reflexivity. Qed.
+
+Lemma address_round_trip x : address_value (address_from x) = x.
+Proof.
+  unfold address_from.
+  destruct (x =? c_broadcast_confirm_optional) eqn:E1; [apply N.eqb_eq in E1; subst; reflexivity|].
+  destruct (x =? c_broadcast_confirm_mandatory) eqn:E2; [apply N.eqb_eq in E2; subst; reflexivity|].
+  destruct (x =? c_broadcast_confirm_not_required) eqn:E3; [apply N.eqb_eq in E3; subst; reflexivity|].
+  destruct (x =? c_self_address) eqn:E4; [apply N.eqb_eq in E4; subst; reflexivity|].
+  destruct (c_reserved_start <=? x); reflexivity.
+Qed.
+
+(* ---------- chunks --------------------------------------------------------------------------- *)
+
+Lemma skipn_length_le {A} k (l : list A) : (length (skipn k l) <= length l)%nat.
+Proof. rewrite skipn_length. lia. Qed.
+
+Lemma chunks_fuel_irrelevant k : (0 < k)%nat -> forall f1 f2 l, (length l <= f1)%nat -> (length l <= f2)%nat ->
+  chunks_fuel f1 k l = chunks_fuel f2 k l.
+Proof.
+  intros Hk f1. induction f1 as [|f1 IH]; intros f2 l H1 H2.
+  - destruct l; [|cbn in H1; lia]. destruct f2; reflexivity.
+  - destruct l as [|x l]; [destruct f2; reflexivity|].
+    destruct f2 as [|f2]; [cbn in H2; lia|]. cbn [chunks_fuel]. f_equal.
+    apply IH; rewrite skipn_length; cbn [length] in *; lia.
+Qed.
+
+Lemma chunks_nil k : chunks k [] = [].
+Proof. reflexivity. Qed.
+
+Lemma chunks_cons k l : (0 < k)%nat -> l <> [] -> chunks k l = firstn k l :: chunks k (skipn k l).
+Proof.
+  intros Hk Hl. unfold chunks. destruct l as [|x l]; [congruence|].
+  cbn [length chunks_fuel]. f_equal. apply chunks_fuel_irrelevant; try assumption.
+  - rewrite skipn_length. cbn [length]. lia.
+  - lia.
+Qed.
+
+(* the shape of a block list produced by chunks: non-empty blocks of at most k, all but the last full *)
+Inductive blocks_wf (k : nat) : list (list N) -> Prop :=
+| bw_nil : blocks_wf k []
+| bw_last b : b <> [] -> (length b <= k)%nat -> blocks_wf k [b]
+| bw_cons b b' bs : length b = k -> blocks_wf k (b' :: bs) -> blocks_wf k (b :: b' :: bs).
+
+Lemma chunks_wf k : (0 < k)%nat -> forall n l, (length l <= n)%nat -> blocks_wf k (chunks k l).
+Proof.
+  intros Hk n. induction n as [|n IH]; intros l Hl.
+  - destruct l; [constructor|cbn in Hl; lia].
+  - destruct l as [|x l]; [constructor|].
+    rewrite chunks_cons by (assumption || discriminate).
+    assert (Hs : (length (skipn k (x :: l)) <= n)%nat) by (rewrite skipn_length; cbn [length] in *; lia).
+    specialize (IH _ Hs).
+    destruct (skipn k (x :: l)) as [|y r] eqn:E.
+    + rewrite chunks_nil. apply bw_last.
+      * destruct k; [lia|]. cbn. discriminate.
+      * rewrite firstn_length. lia.
+    + rewrite chunks_cons in * by (assumption || discriminate). apply bw_cons; [|exact IH].
+      rewrite firstn_length. apply Nat.min_l.
+      assert (length (skipn k (x :: l)) = S (length r)) by (rewrite E; reflexivity).
+      rewrite skipn_length in H. lia.
+Qed.
+
+Lemma chunks_concat k : (0 < k)%nat -> forall n l, (length l <= n)%nat -> concat (chunks k l) = l.
+Proof.
+  intros Hk n. induction n as [|n IH]; intros l Hl.
+  - destruct l; [reflexivity|cbn in Hl; lia].
+  - destruct l as [|x l]; [reflexivity|].
+    rewrite chunks_cons by (assumption || discriminate). cbn [concat].
+    rewrite IH by (rewrite skipn_length; cbn [length] in *; lia). apply firstn_skipn.
+Qed.
+
+Lemma bytes_ok_split k l : bytes_ok l -> bytes_ok (firstn k l) /\ bytes_ok (skipn k l).
+Proof. intro H. rewrite <- (firstn_skipn k l) in H. apply Forall_app in H. exact H. Qed.
+
+Lemma chunks_bytes k l : (0 < k)%nat -> bytes_ok l -> Forall bytes_ok (chunks k l).
+Proof.
+  intros Hk Hb. remember (length l) as n eqn:Hn. assert (Hl : (length l <= n)%nat) by lia. clear Hn.
+  revert l Hb Hl. induction n as [|n IH]; intros l Hb Hl.
+  - destruct l; [constructor|cbn in Hl; lia].
+  - destruct l as [|x l]; [constructor|].
+    rewrite chunks_cons by (assumption || discriminate).
+    destruct (bytes_ok_split k _ Hb) as [H1 H2]. constructor; [exact H1|].
+    apply IH; [exact H2|]. rewrite skipn_length. cbn [length] in *. lia.
+Qed.
+
+(* ---------- body: blocks with CRC are cut back into the same blocks and all pass ------------- *)
+
+Lemma block_with_crc_length b : length (block_with_crc b) = (length b + 2)%nat.
+Proof. unfold block_with_crc. rewrite app_length. reflexivity. Qed.
+
+Lemma rechunk bs : blocks_wf 16 bs ->
+  chunks 18 (concat (map block_with_crc bs)) = map block_with_crc bs.
+Proof.
+  induction 1 as [|b Hne Hlen|b b' bs Hlen Hwf IH].
+  - reflexivity.
+  - cbn [map concat]. rewrite app_nil_r. rewrite chunks_cons.
+    + rewrite firstn_all2 by (rewrite block_with_crc_length; lia).
+      rewrite skipn_all2 by (rewrite block_with_crc_length; lia). reflexivity.
+    + lia.
+    + unfold block_with_crc. destruct b; [congruence|discriminate].
+  - cbn [map concat] in *. rewrite chunks_cons.
+    + assert (L : length (block_with_crc b) = 18%nat) by (rewrite block_with_crc_length; lia).
+      rewrite firstn_app, L, Nat.sub_diag, firstn_O, app_nil_r, firstn_all2 by lia.
+      rewrite skipn_app, L, Nat.sub_diag, skipn_O, skipn_all2 by lia. cbn [app].
+      f_equal. exact IH.
+    + lia.
+    + unfold block_with_crc. destruct b; [cbn in Hlen; lia|discriminate].
+Qed.
+
+Lemma check_blocks_ok bs : Forall bytes_ok bs -> Forall (fun b => b <> []) bs ->
+  check_blocks (map block_with_crc bs) = (None, concat bs).
+Proof.
+  induction bs as [|b bs IH]; intros Hb Hne; [reflexivity|].
+  inversion Hb as [|? ? Hb1 Hb2]; subst. inversion Hne as [|? ? Hn1 Hn2]; subst.
+  cbn [map check_blocks]. rewrite block_with_crc_length.
+  destruct (length b) eqn:El; [destruct b; [congruence|discriminate]|].
+  replace (S n + 2 <? 3)%nat with false by (symmetry; apply Nat.ltb_ge; lia).
+  unfold block_with_crc at 1. rewrite block_with_crc_ok by assumption.
+  rewrite IH by assumption. cbn [concat]. f_equal. f_equal.
+  unfold block_with_crc. replace (S n + 2 - 2)%nat with (length b) by lia.
+  rewrite firstn_app, firstn_all, Nat.sub_diag, firstn_O, app_nil_r. reflexivity.
+Qed.
+
+Lemma blocks_wf_nonempty k bs : (0 < k)%nat -> blocks_wf k bs -> Forall (fun b => b <> []) bs.
+Proof.
+  intros Hk H. induction H as [|b Hne Hlen|b b' bs Hlen Hwf IH]; constructor; auto.
+  destruct b; [cbn in Hlen; lia|discriminate].
+Qed.
+
+(* length of the body *)
+Lemma format_body_length_aux bs : blocks_wf 16 bs ->
+  length (concat (map block_with_crc bs)) = (length (concat bs) + 2 * length bs)%nat.
+Proof.
+  induction 1 as [|b Hne Hlen|b b' bs Hlen Hwf IH].
+  - reflexivity.
+  - cbn [map concat length]. rewrite !app_nil_r, block_with_crc_length. lia.
+  - cbn [map concat length] in *. rewrite app_length, block_with_crc_length, IH, !app_length. cbn [length]. lia.
+Qed.
+
+Lemma blocks_count bs : blocks_wf 16 bs ->
+  length bs = ((length (concat bs) + 15) / 16)%nat.
+Proof.
+  induction 1 as [|b Hne Hlen|b b' bs Hlen Hwf IH].
+  - reflexivity.
+  - cbn [concat length]. rewrite app_nil_r.
+    assert (1 <= length b)%nat by (destruct b; [congruence|cbn; lia]).
+    apply Nat.div_unique with (r := (length b - 1)%nat); lia.
+  - cbn [concat length] in *. rewrite app_length, Hlen.
+    replace (16 + length (b' ++ concat bs) + 15)%nat with (1 * 16 + (length (b' ++ concat bs) + 15))%nat by lia.
+    rewrite Nat.div_add_l by lia. rewrite IH. lia.
+Qed.
+
+Lemma trailer_length_eq (n : nat) : (n <= 250)%nat ->
+  calc_trailer_length (N.of_nat n) = (n + 2 * ((n + 15) / 16))%nat.
+Proof.
+  intro Hn. unfold calc_trailer_length.
+  change c_max_block_size with 16. change c_max_block_size_with_crc with 18. change c_crc_length with 2.
+  destruct (N.of_nat n mod 16 =? 0) eqn:E.
+  - apply N.eqb_eq in E. lia.
+  - apply N.eqb_neq in E. lia.
+Qed.
+
+(* ---------- the frame round trip --------------------------------------------------------------- *)
+
+Definition header_ok (ctrl dest src : N) : Prop := ctrl < 256 /\ dest < 65536 /\ src < 65536.
+
+Lemma mk_header_reparse ctrl dest src : header_ok ctrl dest src ->
+  let h := mk_header ctrl dest src in
+  mk_header (control_to (h_control h))
+            (le16 (lo8 (address_value (h_dest h))) (hi8 (address_value (h_dest h))))
+            (le16 (lo8 (address_value (h_src h))) (hi8 (address_value (h_src h)))) = h.
+Proof.
+  intros (Hc & Hd & Hs). cbn [mk_header h_control h_dest h_src].
+  rewrite control_round_trip by assumption. rewrite !address_round_trip.
+  rewrite !le16_lo_hi by assumption. reflexivity.
+Qed.
+
+Lemma parse_header_cons len ctrl d1 d2 s1 s2 c1 c2 rest :
+  parse_header (len :: ctrl :: d1 :: d2 :: s1 :: s2 :: c1 :: c2 :: rest) =
+  if len <? c_min_header_length_value then (ReadHeader, rest, PErr (ELength len))
+  else if negb (le16 c1 c2 =? calc_crc_with_0564 [len; ctrl; d1; d2; s1; s2])
+       then (ReadHeader, rest, PErr EHeaderCrc)
+       else parse_body (mk_header ctrl (le16 d1 d2) (le16 s1 s2))
+                       (calc_trailer_length (len - c_min_header_length_value)) rest.
+Proof. reflexivity. Qed.
+
+Theorem frame_round_trip : forall ctrl dest src payload rest,
+  header_ok ctrl dest src -> bytes_ok payload -> (length payload <= 250)%nat ->
+  parse_impl FindSync1 (format_frame (mk_header ctrl dest src) payload ++ rest)
+  = (FindSync1, rest, PFrame (mk_header ctrl dest src) payload).
+Proof.
+  intros ctrl dest src payload rest Hh Hb Hlen.
+  set (h := mk_header ctrl dest src).
+  unfold format_frame, format_header, header_fields.
+  set (len := N.of_nat (length payload) + c_min_header_length_value).
+  cbn [app parse_impl parse_sync1].
+  change (c_start1 =? c_start1) with true. cbv iota. cbn [parse_sync2].
+  change (c_start2 =? c_start2) with true. cbv iota.
+  rewrite parse_header_cons.
+  pose proof (mk_header_reparse ctrl dest src Hh) as Hre. cbv zeta in Hre. fold h in Hre. rewrite Hre.
+  replace (len <? c_min_header_length_value) with false by (symmetry; apply N.ltb_ge; unfold len; lia).
+  set (fields := [len; control_to (h_control h); lo8 (address_value (h_dest h)); hi8 (address_value (h_dest h));
+                  lo8 (address_value (h_src h)); hi8 (address_value (h_src h))]).
+  assert (Hcrc : le16 (lo8 (calc_crc_with_0564 fields)) (hi8 (calc_crc_with_0564 fields)) = calc_crc_with_0564 fields).
+  { apply le16_lo_hi. unfold calc_crc_with_0564. apply not16_bound. apply crc_increment_bound; [reflexivity|].
+    unfold fields. destruct Hh as (Hc & Hd & Hs).
+    repeat constructor; try apply lo8_bound; try apply hi8_bound.
+    - unfold len. change c_min_header_length_value with 5. lia.
+    - pose proof (forallb_nrange _ 256 control_to_bound_check ctrl Hc) as Hx. cbv beta in Hx.
+      apply N.ltb_lt. exact Hx. }
+  rewrite Hcrc, N.eqb_refl. cbn [negb].
+  replace (len - c_min_header_length_value) with (N.of_nat (length payload)) by (unfold len; lia).
+  rewrite trailer_length_eq by assumption.
+  (* the body *)
+  unfold parse_body, format_body. change (N.to_nat c_max_block_size) with 16%nat.
+  change (N.to_nat c_max_block_size_with_crc) with 18%nat.
+  pose proof (chunks_wf 16 ltac:(lia) _ payload (le_n _)) as Hwf.
+  pose proof (chunks_concat 16 ltac:(lia) _ payload (le_n _)) as Hcat.
+  set (bs := chunks 16 payload) in *.
+  assert (Lbody : length (concat (map block_with_crc bs)) = (length payload + 2 * ((length payload + 15) / 16))%nat).
+  { rewrite format_body_length_aux by assumption. rewrite blocks_count by assumption. rewrite Hcat. reflexivity. }
+  rewrite app_length, Lbody.
+  replace (_ + _ + length rest <? _)%nat with false by (symmetry; apply Nat.ltb_ge; lia).
+  rewrite <- Lbody. rewrite firstn_app, Nat.sub_diag, firstn_O, app_nil_r, firstn_all.
+  rewrite skipn_app, Nat.sub_diag, skipn_O, skipn_all. cbn [app].
+  rewrite (rechunk bs Hwf).
+  rewrite check_blocks_ok.
+  - rewrite Hcat. reflexivity.
+  - unfold bs. apply chunks_bytes; [lia|assumption].
+  - apply (blocks_wf_nonempty 16); [lia|assumption].
+Qed.
